@@ -60,6 +60,9 @@ CHECKS = {
     "C16": ("exploration", "runtime monitoring: metamorphic differential monitor - the same history executed without duplicates, with every non-QU datagram duplicated, and with every datagram duplicated, under identical seeds; wire traces and per-listener callback logs compared event by event",
             "Traffic histories of queries of every kind and responses with new/refreshed/goodbye/flush records are replayed three times in virtual time; the run duplicating only datagrams without a QU question must be identical to the reference; the fully duplicated run may only add unicast replies emitted while a QU copy is processed. First divergence is classified and attributed (non_qu_duplicate vs qu_copy_processed).",
             "Duplicates are delivered in the same loop callback as the original; RNG draws during the copy come from a side stream. One known finding (F8) is listed in known_findings.json.", "2/C16"),
+    "C17": ("exploration", "runtime monitoring: 'nothing after close' trace/callback/exception monitors in the virtual-time simulator with close requested on a grid of offsets relative to in-flight activities, plus real-time runs of the threaded API",
+            "Close is requested while registrations, queued answers, TC holds, browser timers, lookups and the purge are in flight; the wire (including send attempts on dead transports), all spy callbacks and the loop exception handler are watched for two more virtual hours with further traffic; goodbyes before close returns; second close is a no-op; real-time runs cover Zeroconf()/ServiceBrowser threads with close() from another thread.",
+            "Armed-but-silent timers are allowed; thread runs use wall-clock waits with a watchdog that yields INCONCLUSIVE.", "2/C17"),
 }
 
 NOT_YET = {}
